@@ -27,8 +27,9 @@ import (
 )
 
 type (
-	Probe = vlib.Probe
-	Case  = vlib.ChildCase
+	Probe       = vlib.Probe
+	Case        = vlib.ChildCase
+	HistoryCase = vlib.HistoryCase
 )
 
 var (
